@@ -283,7 +283,24 @@ func run(r *vt.Run, t vt.TB, s spec) {
 			return
 		}
 		asyncDone := make(chan struct{})
-		for rows.Next() {
+		// K = 0: the result set is closed / cancelled before its first row
+		// was asked for (the producer may not even have started)
+		switch {
+		case s.K == 0 && s.Plan == "close":
+			stoppedEarly = true
+		case s.K == 0 && s.Plan == "cancel":
+			cancel()
+			stoppedEarly = true
+		case s.K == 0 && s.Plan == "cancel-async":
+			go func() {
+				for i := 0; i < s.Yields; i++ {
+					runtime.Gosched()
+				}
+				cancel()
+				close(asyncDone)
+			}()
+		}
+		for !stoppedEarly && rows.Next() {
 			dest := make([]interface{}, len(cols))
 			ptrs := make([]interface{}, len(cols))
 			for i := range dest {
@@ -327,7 +344,7 @@ func run(r *vt.Run, t vt.TB, s spec) {
 			r.Violation(t, s, "close-hangs", "%s: rows.Close did not return within 20 s (plan %s after %d rows)", query, s.Plan, consumed)
 			return
 		}
-		if s.Plan == "cancel-async" && consumed >= s.K && s.K > 0 {
+		if s.Plan == "cancel-async" && consumed >= s.K {
 			select {
 			case <-asyncDone:
 			case <-time.After(5 * time.Second):
@@ -351,7 +368,7 @@ func run(r *vt.Run, t vt.TB, s spec) {
 		r.Violation(t, s, "error-not-surfaced", "%s: the native API fails (%v) after %d rows; database/sql delivered %d rows and no error through Query, Scan or rows.Err", query, wantErr, len(want), len(got))
 		return
 	}
-	if len(got) < len(want) && surfaced == nil && !stoppedEarly && !(cancelled && consumed >= s.K && s.K > 0) {
+	if len(got) < len(want) && surfaced == nil && !stoppedEarly && !(cancelled && consumed >= s.K) {
 		r.Violation(t, s, "silently-short", "%s: database/sql delivered %d of %d rows without any error", query, len(got), len(want))
 		return
 	}
